@@ -1277,7 +1277,15 @@ func inTimeIsZero(fr *frame, args []value) (value, bool) {
 
 func inNewTicker(fr *frame, args []value) (value, bool) {
 	m := fr.m
-	var ch value = &chanV{ticker: true, elem: m.namedType("time", "Time"), name: "ticker"}
+	tc := &chanV{ticker: true, elem: m.namedType("time", "Time"), name: "ticker"}
+	// a timer of a second or more is a time-out: it fires only as a last resort (§2.5)
+	if len(args) > 0 {
+		if d, ok := args[0].(int64); ok && d >= 1000000000 {
+			tc.long = true
+			tc.name = "timeout"
+		}
+	}
+	var ch value = tc
 	// time.Ticker{C <-chan Time; r runtimeTimer...}: only field 0 is used
 	t := fr.fn.Signature.Results().At(0).Type()
 	st := zero(mustDeref(t)).(structure)
@@ -1287,7 +1295,14 @@ func inNewTicker(fr *frame, args []value) (value, bool) {
 }
 
 func inTimeAfter(fr *frame, args []value) (value, bool) {
-	return &chanV{ticker: true, elem: fr.m.namedType("time", "Time"), name: "time.After"}, true
+	tc := &chanV{ticker: true, elem: fr.m.namedType("time", "Time"), name: "time.After"}
+	if len(args) > 0 {
+		if d, ok := args[0].(int64); ok && d >= 1000000000 {
+			tc.long = true
+			tc.name = "timeout"
+		}
+	}
+	return tc, true
 }
 
 func inRandInt64N(fr *frame, args []value) (value, bool) {
